@@ -62,35 +62,67 @@ impl<'p> RefProgramLocation<'p> {
         }
 
         if let Some(function) = function {
-            for block in function.blocks() {
-                for instruction in block.instructions() {
-                    if instruction.address().map(|a| a == address).unwrap_or(false) {
-                        return Some(RefProgramLocation::new(
-                            function,
-                            RefFunctionLocation::Instruction(block, instruction),
-                        ));
-                    }
-                }
+            if let Some(location) = RefProgramLocation::first_at_address(function, address) {
+                return Some(location);
             }
         }
 
         // Exhaustive search
         for function in program.functions() {
-            for block in function.blocks() {
-                for instruction in block.instructions() {
-                    if let Some(iaddress) = instruction.address() {
-                        if iaddress == address {
-                            return Some(RefProgramLocation::new(
-                                function,
-                                RefFunctionLocation::Instruction(block, instruction),
-                            ));
-                        }
-                    }
-                }
+            if let Some(location) = RefProgramLocation::first_at_address(function, address) {
+                return Some(location);
             }
         }
 
         None
+    }
+
+    /// Find the `Instruction` with the given address in a `Function`.
+    ///
+    /// One native instruction may be lifted to several IL instructions, spread
+    /// over several blocks, which all carry its address. We prefer the
+    /// instruction at which the native instruction begins, i.e. one that is not
+    /// only reached from IL instructions with the same address, and fall back
+    /// to the first instruction with this address.
+    fn first_at_address(function: &'p Function, address: u64) -> Option<RefProgramLocation<'p>> {
+        let has_address =
+            |instruction: &Instruction| instruction.address().map_or(false, |a| a == address);
+
+        let mut first = None;
+        for block in function.blocks() {
+            for (position, instruction) in block.instructions().iter().enumerate() {
+                if !has_address(instruction) {
+                    continue;
+                }
+                let location = RefProgramLocation::new(
+                    function,
+                    RefFunctionLocation::Instruction(block, instruction),
+                );
+                let begins = if position > 0 {
+                    !has_address(&block.instructions()[position - 1])
+                } else {
+                    let predecessors = function
+                        .control_flow_graph()
+                        .predecessor_indices(block.index())
+                        .unwrap_or_default();
+                    predecessors.is_empty()
+                        || predecessors.iter().any(|index| {
+                            function
+                                .block(*index)
+                                .ok()
+                                .and_then(|predecessor| predecessor.instructions().last())
+                                .map_or(true, |last| !has_address(last))
+                        })
+                };
+                if begins {
+                    return Some(location);
+                }
+                if first.is_none() {
+                    first = Some(location);
+                }
+            }
+        }
+        first
     }
 
     /// Create a new `RefProgramLocation` in the given `Program` by finding the
